@@ -31,3 +31,31 @@ def keyenc_k2(ops, fail):
         if f[0] == "nuk" and _esc_len(_unhex(f[1])) >= 65536:
             return True
     return False
+
+
+def table_k3(ops, fail):
+    """K3: CompareAndSwap / CompareAndDelete with guard revision 0 act unguarded."""
+    if "write-result" not in (fail.clause or ""):
+        return False
+    for o in ops:
+        f = o.split()
+        if f[0] in ("cas", "cad") and len(f) > 2 and f[2] == "0":
+            return True
+    return False
+
+
+def table_k4(ops, fail):
+    """K4: Next() called with the transaction that created the iterator, after that
+    transaction deleted objects before Changes(): the deletion is never delivered."""
+    if "replay-does-not-converge" not in (fail.clause or ""):
+        return False
+    fresh = set()
+    for o in ops:
+        f = o.split()
+        if f[0] == "changes":
+            fresh.add(f[1])
+        elif f[0] in ("commit", "abort"):
+            fresh.clear()
+        elif f[0] == "next" and f[2] == "txn" and f[1] in fresh:
+            return True
+    return False
